@@ -13,6 +13,7 @@ import (
 	"strconv"
 	"strings"
 	"sync"
+	"time"
 )
 
 type val struct {
@@ -215,4 +216,11 @@ func RunReplay(fn func()) (outcome string) {
 // (see pkg/zzverifhttp).  Native code never reaches it.
 func CopyPayload(payload any, out any) bool {
 	panic("zzverif.CopyPayload is only meaningful under the symbolic engine")
+}
+
+// WaitUntil blocks until the (side-effect free) predicate holds; natively it polls.
+func WaitUntil(pred func() bool) {
+	for !pred() {
+		time.Sleep(time.Millisecond)
+	}
 }
